@@ -871,6 +871,16 @@ func init() {
 		}
 		return mkBool(f)
 	}
+	// LastFault() (kind string, eventIndex int): the injected fault of this run (eventIndex -1 if none)
+	I[zz+"LastFault"] = func(fr *frame, fn *ssa.Function, args []Value) Value {
+		v := fr.r.vos
+		for i := len(v.events) - 1; i >= 0; i-- {
+			if strings.Contains(v.events[i].Res, "injected") {
+				return Tuple{Str{S: v.events[i].Kind}, mkInt(64, uint64(i))}
+			}
+		}
+		return Tuple{Str{}, mkInt(64, ^uint64(0))}
+	}
 	I[zz+"IOCount"] = func(fr *frame, fn *ssa.Function, args []Value) Value {
 		return mkInt(64, uint64(fr.r.vos.counts[argStr(args[0])]))
 	}
